@@ -21,6 +21,7 @@ var trustedBase = []string{
 var baseAssumptions = []string{
 	"A-INT: machine integers are treated as mathematical integers (no wrap-around)",
 	"A-REAL: float64 is treated as mathematical reals (no rounding, NaN or Inf); replays evaluate clauses on float64 with relative tolerance 1e-9",
+	"A-SLICE0: a slice received from outside the verified function (parameter, struct field, call result) starts at index 0 of its backing array; overlapping sub-slices of one array passed as different arguments are excluded",
 	"A-TERMINATION: partial correctness only (loops are cut at invariants; termination is not proved)",
 	"A-CALLER: preconditions of functions under contract are obligations of their callers; for callers outside the contracts they are assumptions",
 }
@@ -28,6 +29,9 @@ var baseAssumptions = []string{
 var modelPkgs = []string{"./models/...", "./util/...", "./data", "./conv/..."}
 
 var propSpecs = map[string]PropSpec{
+	"C01": {ID: "C01", Level: "proof", Patterns: []string{"./data/...", "./util/..."}},
+	"C02": {ID: "C02", Level: "proof", Patterns: []string{"./data/...", "./util/..."}},
+	"C03": {ID: "C03", Level: "proof", Patterns: []string{"./data/...", "./util/..."}},
 	"C06": {ID: "C06", Level: "proof", Patterns: modelPkgs},
 	"C14": {ID: "C14", Level: "proof", Patterns: modelPkgs},
 	"C10": {ID: "C10", Level: "proof", Patterns: modelPkgs},
